@@ -648,7 +648,8 @@ package argmapper
 //@   ensures  [target-with-missing-argument-not-executed] imp(finalStep && !cachedAtFinal && result.buildErr != nil, nexec == nexecAtFinal && len(result.out) == 0)
 //@   ensures  [no-failing-converter-when-the-target-is-reached] imp(finalStep, nexecAtFinal <= nexec)
 //@   ensures  [raw-outputs-of-the-target] imp(finalStep && !cachedAtFinal && result.buildErr == nil, len(result.out) == numOut(rtypeof(f.fn)) && forall(i, int, imp(0 <= i && i < len(result.out), valid(result.out[i]) && rtypeof(result.out[i]) == outType(rtypeof(f.fn), i))))
-//@   ensures  [function-unchanged] f.fn == old(f.fn) && f.once == old(f.once) && imp(!f.once, f.onceResult == old(f.onceResult)) && cachedAtFinal == (f.once && old(f.onceResult) != nil) || !finalStep
+//@   ensures  [function-unchanged] f.fn == old(f.fn) && f.once == old(f.once) && f.input == old(f.input)
+//@   ensures  [no-cache-without-once] imp(finalStep && !f.once, !cachedAtFinal)
 //@   assigns  *
 //@   before "builder, buildErr := f.argBuilder(opts...)" set finalStep = false
 //@   before "return f.callDirect(log, argMap)" assert [target-reached-only-without-converter-failure] failed == nil
